@@ -74,7 +74,9 @@ func validateBlock(evidencePool EvidencePool, store Store, state LatestBlockStat
 
 	// Validate block LastCommit
 	if block.Height() == state.InitialHeight {
-		if len(block.LastCommit().Signatures) != 0 {
+		// There is no previous block: the last commit must be the empty one (and must be present).
+		lc := block.LastCommit()
+		if lc == nil || len(lc.Signatures) != 0 || lc.Height != 0 || lc.Round != 0 || !lc.BlockID.IsZero() {
 			return ErrLastCommitSig
 		}
 	} else {
